@@ -36,6 +36,11 @@ pub struct Report {
     pub notes: Vec<String>,
 }
 
+/// second (plain-release) pass of a check: the multi-minute long runs are left to the first pass
+pub fn light() -> bool {
+    std::env::var("VERIF_LIGHT").is_ok()
+}
+
 impl Report {
     pub fn new(property: &str, tier: &str, seed: u64) -> Report {
         Report {
